@@ -72,7 +72,8 @@ def decElim (mm k : Nat) (s : Mat K × Mat K) (i : Nat) : Res (Mat K × Mat K) :
   let (au, al) := s
   let a ← au.get i 0
   let p ← au.get k 0
-  let dum ← divM a p
+  -- a zero pivot means every candidate of the column is zero: the row is only shifted
+  let dum ← if p == 0 then pure 0 else divM a p
   let al ← al.set k (i - k - 1) dum
   let au ← forM' 1 mm au (fun au j => do
     let x ← au.get i j
